@@ -1502,8 +1502,133 @@ def check_comprehensions(ctx: Ctx):
                    bad == 0, detail=f"{len(cases)} comprehensions, {bad} differing")
 
 
+# ---- name resolution ------------------------------------------------------------------------------
+# The SAME name exists at several levels (builtins, module globals, cells of closures created outside and inside
+# traced code, class attributes, parameters, comprehension variables, nonlocal / global declarations) with a
+# different value at each level, so every mistake in the lookup order changes a recorded value.
+
+
+def scoping_templates(rng, u):
+    G, C, C2, CA, P, L, D, E = rng.sample(range(2, 95), 8)
+    n, m, w = f"n{u}", f"m{u}", f"w{u}"
+    t = {}
+    # closures created at module level (outside traced code): cell vs module global of the same name
+    t["outside-closure-vs-global"] = (
+        f"{n} = {G}\n\n\ndef mk{u}({n}):\n    def f(x):\n        return x * 1000 + {n}\n    return f\n\n\n"
+        f"def mkl{u}({n}):\n    return lambda x: (x, {n})\n\n\ncf{u} = mk{u}({C})\ncg{u} = mk{u}({C2})\nlam{u} = mkl{u}({D})\n",
+        [f"record((cf{u}(1), cg{u}(2), lam{u}(3), {n}))"])
+    t["outside-closure-two-deep"] = (
+        f"{n} = {G}\n{m} = {D}\n\n\ndef a{u}({n}):\n    def b({m}):\n        def c(x):\n            return (x, {n}, {m})\n        return c\n    return b\n\n\n"
+        f"c1{u} = a{u}({C})({C2})\nc2{u} = a{u}({P})({L})\n\n\ndef rd{u}():\n    return ({n}, {m})\n",
+        [f"record((c1{u}(1), c2{u}(2), rd{u}(), {n}, {m}))"])
+    t["outside-closure-mixed-free-names"] = (
+        f"{n} = {G}\n{m} = {D}\n\n\ndef mk{u}({n}):\n    def f(x):\n        return (x, {n}, {m})\n    return f\n\n\nmx{u} = mk{u}({C})\n",
+        [f"record(mx{u}(1))"])
+    t["outside-lambda-default-and-cell"] = (
+        f"{n} = {G}\n\n\ndef mk{u}({n}):\n    return lambda x, d={n}: (x, d, {n})\n\n\nld{u} = mk{u}({C})\nlg{u} = lambda x, d={n}: (x, d, {n})\n",
+        [f"record((ld{u}(1), ld{u}(1, 2), lg{u}(3)))"])
+    t["outside-closure-cell-named-like-builtin"] = (
+        f"def mkb{u}(hex, oct={E}):\n    def f(x):\n        return (x, hex, oct)\n    return f\n\n\nbf{u} = mkb{u}({C})\n\n\ndef pb{u}(ord):\n    return ord + 1\n",
+        [f"record((bf{u}(1), pb{u}({P})))"])
+    t["global-named-like-builtin"] = (
+        f"chr = {G}\n\n\ndef rb{u}():\n    return chr\n\n\ndef mkc{u}(chr):\n    return lambda: chr\n\n\nbc{u} = mkc{u}({C})\n",
+        [f"record((rb{u}(), bc{u}(), chr))"])
+    t["bound-method-and-class-attribute"] = (
+        f"{n} = {G}\n\n\nclass S{u}:\n    {n} = {CA}\n\n    def __init__(self, v):\n        self.v = v\n\n    def g(self):\n        return ({n}, self.{n}, self.v)\n\n"
+        f"    def p(self, {n}):\n        return ({n}, self.{n})\n\n    def d(self, x={n}):\n        return x\n\n    lam = staticmethod(lambda: {n})\n\n\n"
+        f"bm{u} = S{u}({C}).g\nbp{u} = S{u}({C2}).p\n",
+        [f"so{u} = S{u}({D})", f"record((bm{u}(), bp{u}({P}), so{u}.g(), so{u}.p({L}), so{u}.d(), S{u}.lam(), S{u}.{n}, {n}))"])
+    t["subclass-attribute-shadowing"] = (
+        f"{n} = {G}\n\n\nclass A{u}:\n    {n} = {CA}\n\n    def r(self):\n        return (self.{n}, {n})\n\n\nclass B{u}(A{u}):\n    {n} = {C}\n\n\nclass C{u}(B{u}):\n    pass\n",
+        [f"record((A{u}().r(), B{u}().r(), C{u}().r(), A{u}.{n}, B{u}.{n}, C{u}.{n}))"])
+    t["instance-attribute-shadows-class-attribute"] = (
+        f"class I{u}:\n    {n} = {CA}\n\n    def __init__(self):\n        self.{n} = {D}\n\n    def r(self):\n        return (self.{n}, I{u}.{n})\n",
+        [f"record(I{u}().r())"])
+    t["functools-partial"] = (
+        f"import functools\n\n{n} = {G}\n\n\ndef pf{u}(a, {n}, k={n}):\n    return (a, {n}, k)\n\n\npp{u} = functools.partial(pf{u}, {C})\npk{u} = functools.partial(pf{u}, k={C2})\n",
+        [f"record((pp{u}({P}), pk{u}(1, 2)))"])
+    t["module-default-captured-before-rebinding"] = (
+        f"{n} = {G}\n\n\ndef df{u}(x, d={n}):\n    return (x, d, {n})\n\n\n{n} = {C}\n",
+        [f"record((df{u}(1), df{u}(1, 2), {n}))"])
+    # closures created inside traced code
+    t["inside-closure-vs-global"] = (
+        f"{n} = {G}\n",
+        [f"def mki{u}({n}):\n    def f(x):\n        return (x, {n})\n    return f", f"record((mki{u}({C})(1), mki{u}({C2})(2), {n}))"])
+    t["inside-closure-two-deep"] = (
+        f"{n} = {G}\n{m} = {D}\n",
+        [f"def ai{u}({n}):\n    def b({m}):\n        def c(x):\n            return (x, {n}, {m})\n        return c\n    return b",
+         f"record((ai{u}({C})({C2})(1), ai{u}({P})({L})(2), {n}, {m}))"])
+    t["inside-local-shadows-global-of-helper"] = (
+        f"{w} = {G}\n\n\ndef hw{u}():\n    return {w}\n",
+        [f"{w} = {L}", f"def lw{u}():\n    return {w}", f"record((hw{u}(), lw{u}(), {w}, (lambda: {w})()))"])
+    t["inside-default-refers-to-shadowed-name"] = (
+        f"{n} = {G}\n",
+        [f"def od{u}({n}):\n    def f(x, d={n}):\n        return (x, d, {n})\n    return f", f"record((od{u}({C})(1), od{u}({C2})(1, 2)))",
+         f"gl{u} = lambda x, d={n}: (x, d)", f"record(gl{u}(3))"])
+    t["parameter-shadows-global-and-builtin"] = (
+        f"{n} = {G}\n\n\ndef ps{u}({n}, len={E}):\n    return ({n}, len)\n\n\ndef pg{u}():\n    return ({n}, len([1, 2]))\n",
+        [f"record((ps{u}({P}), ps{u}({L}, 4), pg{u}()))"])
+    t["comprehension-variable-then-global-read"] = (
+        f"{n} = {G}\n\n\ndef cv{u}(k):\n    return ([{n} * k for {n} in range(3)], {n})\n",
+        [f"record(cv{u}(2))"])
+    t["comprehension-variable-named-like-global"] = (
+        f"{n} = {G}\n{m} = {D}\n\n\ndef cw{u}(k):\n    return {{{n}: [{m} + {n} for {m} in range({n})] for {n} in range(k)}}\n\n\ndef cr{u}():\n    return ({n}, {m})\n",
+        [f"record((cw{u}(3), cr{u}(), [{n} * 2 for {n} in range(3)]))"])
+    t["comprehension-variable-at-top-level-of-traced-function"] = (
+        f"{n} = {G}\n", [f"record(([{n} for {n} in ({C}, {C2})], {n}))"])
+    t["comprehension-variable-shadows-parameter"] = (
+        f"def cp{u}({n}):\n    return ([{n} + 1 for {n} in range(3)], {n})\n",
+        [f"record(cp{u}({P}))"])
+    t["comprehension-reads-enclosing-levels"] = (
+        f"{n} = {G}\n{m} = {D}\n\n\ndef ce{u}({m}):\n    q = {C}\n    return [(x, {n}, {m}, q) for x in range(2) if x != {n} if {m} > 0]\n",
+        [f"record((ce{u}({P}), [(x, {n}, {m}) for x in range(2)]))"])
+    t["nonlocal-declaration"] = (
+        f"{n} = {G}\n\n\ndef nl{u}({n}):\n    def inner():\n        nonlocal {n}\n        return {n} + 1\n    return (inner(), {n})\n",
+        [f"record((nl{u}({P}), {n}))", f"def nli{u}({n}):\n    def inner():\n        nonlocal {n}\n        return {n} + 2\n    return inner()", f"record(nli{u}({L}))"])
+    t["global-declaration"] = (
+        f"{n} = {G}\n\n\ndef gd{u}({m}):\n    global {n}\n    return ({n}, {m})\n\n\ndef gm{u}({m}):\n    def inner():\n        global {n}\n        return {n}\n    return (inner(), {m})\n",
+        [f"record((gd{u}({P}), gm{u}({L})))"])
+    t["recursive-local-function-and-self-name"] = (
+        f"def down{u}(k):\n    return {G}\n",
+        [f"def down{u}(k):\n    return [k] if k <= 0 else [k] + down{u}(k - 1)", f"record(down{u}(3))"])
+    t["method-vs-global-function-of-same-name"] = (
+        f"def val{u}():\n    return {G}\n\n\nclass M{u}:\n    def val{u}(self):\n        return {CA}\n\n    def both(self):\n        return (val{u}(), self.val{u}())\n",
+        [f"record(M{u}().both())"])
+    return t
+
+
+def snip_scoping(rng, u):
+    t = scoping_templates(rng, u)
+    name = rng.choice(sorted(t))
+    defs, body = t[name]
+    return {"family": "scoping:" + name, "defs": defs, "body": body}
+
+
+def check_scoping(ctx: Ctx):
+    """every name-resolution template, every run (values random), each compared with CPython"""
+    cases, names = [], []
+    for rep in range(ctx.scale(2, 8)):
+        t = scoping_templates(ctx.rng, 9000 + rep)
+        for name in sorted(t):
+            cases.append({"defs": t[name][0], "body": t[name][1], "solo": True})
+            names.append(name)
+    res = run_programs([make_program(c["defs"], c["body"]) for c in cases])
+    bad = 0
+    for name, case, r in zip(names, cases, res):
+        v = verdict(r)
+        ctx.case(key=("scoping", name, case["defs"]), nontrivial=v == "same", kind=f"scoping:{v}",
+                 sample={"template": name, "main": case["body"][-1][:120], "verdict": v} if v == "same" else None)
+        ctx.dist[f"scoping:{name}:{v}"] += 1
+        if v == "diff":
+            if report_diff(ctx, f"scoping:{name}", f"name resolution ({name}): `{case['body'][-1][:140]}` evaluates to {val_of(r, 'py')} in CPython and to {r['co'][1][:1]} in the tracer",
+                           case, r):
+                bad += 1
+    ctx.obligation("differential correspondence: name resolution with the same name at several levels (builtins, globals, cells of closures created outside / inside traced code, class attributes, parameters, comprehension variables, nonlocal/global) evaluates like CPython or is rejected",
+                   bad == 0, detail=f"{len(cases)} programs, {bad} differing")
+
+
 SNIPPETS = [snip_call, snip_call, snip_call, snip_closure, snip_class, snip_operators, snip_containers, snip_control,
-            snip_comprehension, snip_comprehension, snip_comprehension_multi]
+            snip_comprehension, snip_comprehension, snip_comprehension_multi, snip_scoping, snip_scoping]
 
 
 def first_diff_stmt(snip, r):
@@ -1669,7 +1794,7 @@ def run(ctx: Ctx):
     import time
     timing = {}
     for name, fn in (("binding", check_binding), ("split", check_split), ("boolop", check_boolop), ("chain", check_chain),
-                     ("binop", check_binop), ("cmp", check_cmp), ("directed", check_directed), ("comprehensions", check_comprehensions), ("programs", check_programs)):
+                     ("binop", check_binop), ("cmp", check_cmp), ("directed", check_directed), ("comprehensions", check_comprehensions), ("scoping", check_scoping), ("programs", check_programs)):
         t0 = time.time()
         fn(ctx)
         timing[name] = round(time.time() - t0, 1)
